@@ -282,17 +282,22 @@ def bItems (env : VEnv) (rec : Rec) (stack : List NodeId) (n : Node) (xs : List 
       | some it => Res.bind (eachItem rec stack it (xs.drop pi.length)) fun _ => .ok { anns with allItems := true }
       | none => .ok anns
 
-def bContains (rec : Rec) (stack : List NodeId) (n : Node) (xs : List GoVal) (anns : Anns) : Res (Anns × Nat) :=
+/-- `d` is `st.rs.draft`: minContains, maxContains, unevaluatedItems and unevaluatedProperties are unknown keywords
+    under draft-07 and are read under 2020-12 only (here and in the three blocks below that take the draft) -/
+def bContains (d : Draft) (rec : Rec) (stack : List NodeId) (n : Node) (xs : List GoVal) (anns : Anns) :
+    Res (Anns × Nat) :=
   match n.contains with
   | none => .ok (anns, 0)
   | some c =>
     Res.bind (containsLoop rec stack c xs 0 anns 0) fun (anns, cnt) =>
-      if cnt == 0 && (match n.minContains with | none => true | some m => decide (m > 0)) then .err
+      if cnt == 0 && (d == .d7 || match n.minContains with | none => true | some m => decide (m > 0)) then .err
       else .ok (anns, cnt)
 
-def bArrayLimits (n : Node) (xs : List GoVal) (cnt : Nat) : Res Unit :=
-  if (match n.minContains, n.contains with | some m, some _ => decide ((cnt : Int) < m) | _, _ => false) then .err
-  else if (match n.maxContains, n.contains with | some m, some _ => decide ((cnt : Int) > m) | _, _ => false) then .err
+def bArrayLimits (d : Draft) (n : Node) (xs : List GoVal) (cnt : Nat) : Res Unit :=
+  if (d == .d2020 &&
+      match n.minContains, n.contains with | some m, some _ => decide ((cnt : Int) < m) | _, _ => false) then .err
+  else if (d == .d2020 &&
+      match n.maxContains, n.contains with | some m, some _ => decide ((cnt : Int) > m) | _, _ => false) then .err
   else if (match n.minItems with | some m => decide ((xs.length : Int) < m) | none => false) then .err
   else if (match n.maxItems with | some m => decide ((xs.length : Int) > m) | none => false) then .err
   else .ok ()
@@ -300,21 +305,24 @@ def bArrayLimits (n : Node) (xs : List GoVal) (cnt : Nat) : Res Unit :=
 def bUnique (env : VEnv) (n : Node) (xs : List GoVal) : Res Unit :=
   if n.uniqueItems then uniqueItems env.hash xs else .ok ()
 
-def bUnevaluatedItems (rec : Rec) (stack : List NodeId) (n : Node) (xs : List GoVal) (anns : Anns) : Res Anns :=
-  match n.unevaluatedItems with
-  | some u =>
-    if anns.allItems then .ok anns
-    else Res.bind (unevalItemsLoop rec stack u anns xs 0) fun _ => .ok { anns with allItems := true }
-  | none => .ok anns
+def bUnevaluatedItems (d : Draft) (rec : Rec) (stack : List NodeId) (n : Node) (xs : List GoVal) (anns : Anns) :
+    Res Anns :=
+  if d == .d2020 then
+    match n.unevaluatedItems with
+    | some u =>
+      if anns.allItems then .ok anns
+      else Res.bind (unevalItemsLoop rec stack u anns xs 0) fun _ => .ok { anns with allItems := true }
+    | none => .ok anns
+  else .ok anns
 
 def bArray (env : VEnv) (rec : Rec) (stack : List NodeId) (n : Node) (inst : GoVal) (anns : Anns) : Res Anns :=
   match inst with
   | .list xs =>
     Res.bind (bItems env rec stack n xs anns) fun anns =>
-    Res.bind (bContains rec stack n xs anns) fun (anns, cnt) =>
-    Res.bind (bArrayLimits n xs cnt) fun _ =>
+    Res.bind (bContains env.draft rec stack n xs anns) fun (anns, cnt) =>
+    Res.bind (bArrayLimits env.draft n xs cnt) fun _ =>
     Res.bind (bUnique env n xs) fun _ =>
-    bUnevaluatedItems rec stack n xs anns
+    bUnevaluatedItems env.draft rec stack n xs anns
   | _ => .ok anns
 
 /-! ### objects -/
@@ -412,13 +420,15 @@ def bDependencies (env : VEnv) (rec : Rec) (stack : List NodeId) (n : Node) (ins
     Res.bind (depRequiredLoop kvs (n.dependentRequired.getD [])) fun _ =>
       depSchemasLoop rec stack inst kvs (n.dependentSchemas.getD []) anns
 
-def bUnevaluatedProps (rec : Rec) (stack : List NodeId) (n : Node) (kvs : List (String × GoVal)) (anns : Anns) :
-    Res Anns :=
-  match n.unevaluatedProperties with
-  | some u =>
-    if anns.allProperties then .ok anns
-    else Res.bind (unevalPropsLoop rec stack u anns kvs) fun _ => .ok { anns with allProperties := true }
-  | none => .ok anns
+def bUnevaluatedProps (d : Draft) (rec : Rec) (stack : List NodeId) (n : Node) (kvs : List (String × GoVal))
+    (anns : Anns) : Res Anns :=
+  if d == .d2020 then
+    match n.unevaluatedProperties with
+    | some u =>
+      if anns.allProperties then .ok anns
+      else Res.bind (unevalPropsLoop rec stack u anns kvs) fun _ => .ok { anns with allProperties := true }
+    | none => .ok anns
+  else .ok anns
 
 def bObject (env : VEnv) (rec : Rec) (stack : List NodeId) (n : Node) (info : Option Info) (inst : GoVal)
     (anns : Anns) : Res Anns :=
@@ -433,7 +443,7 @@ def bObject (env : VEnv) (rec : Rec) (stack : List NodeId) (n : Node) (info : Op
               | none => .ok ()) fun _ =>
     Res.bind (bObjectLimits n info kvs) fun _ =>
     Res.bind (bDependencies env rec stack n inst kvs anns) fun anns =>
-    bUnevaluatedProps rec stack n kvs anns
+    bUnevaluatedProps env.draft rec stack n kvs anns
   | _ => .ok anns
 
 /-! ### one call of validate -/
